@@ -75,17 +75,14 @@ func exhaustivePart(name string, o kvOpts) sup.Part {
 		Name: name,
 		Count: func(tier string) int {
 			if tier == "thorough" {
-				return len(setups) * 2 * len(fups)
+				return len(setups) * 2 * len(fups) * 4 // four passes with different random prefix extensions
 			}
-			return len(setups) * 2
+			return len(setups) * 2 * len(fups)
 		},
 		Run: func(c *sup.Ctx) {
 			r := rng.New(c.Seed, rng.HashString(c.Prop), rng.HashString(name), uint64(c.Local))
 			si := (c.Local / 2) % len(setups)
-			fu := -1
-			if c.Tier == "thorough" {
-				fu = c.Local / (2 * len(setups))
-			}
+			fu := (c.Local / (2 * len(setups))) % len(fups)
 			cfg := o.Cfg(r, c.Local)
 			sim, err := kv.NewSim(c, r, cfg, o.Sim)
 			if err != nil {
